@@ -25,6 +25,10 @@ inline std::string one_line(std::string s, size_t cap = 1500) {
     return s;
 }
 
+// the driver greps the harness's own stderr for "Assertion ... failed (located in ..." to catch assertions of the harness process itself;
+// a child's assertion is reported under this class's key, so its quoted text must not match that pattern a second time
+inline std::string lower_assertion(std::string s) { for (size_t p = 0; (p = s.find("Assertion ", p)) != std::string::npos; p++) s[p] = 'a'; return s; }
+
 // ------------------------------------------------------------------------------------------------ child side
 struct Child {
     int fd = -1;
@@ -176,7 +180,7 @@ struct Runner {
         for (auto& v : rep.viols) R.violation(v.key, v.detail, v.scen == "{}" ? scen : v.scen);
         if (rep.inconclusive) { R.inconclusive++; R.stat("children_inconclusive_stall"); return; }
         std::string where = " | last operation #" + std::to_string(rep.op_index) + ": " + rep.op + " | mapping calls " + std::to_string(rep.map_calls) + " (refused " + std::to_string(rep.map_fired) +
-                            "), raw callbacks " + std::to_string(rep.raw_calls) + " (refused " + std::to_string(rep.raw_fired) + ") | stderr: " + one_line(rep.err_tail, 900);
+                            "), raw callbacks " + std::to_string(rep.raw_calls) + " (refused " + std::to_string(rep.raw_fired) + ") | stderr: " + lower_assertion(one_line(rep.err_tail, 900));
         if (rep.term_sig) {
             R.stat("children_crashed");
             std::string key;
